@@ -118,6 +118,11 @@ func GenEngineScript(r *Rng, o EngineGenOpts, hist map[string]int) []string {
 		hist["source_dir_name_with_pattern_characters"]++
 	}
 	add("dir %s", src)
+	if o.Backups && r.Chance(1, 6) {
+		// the data directory is given as a symbolic link (say /var/lib/app/data -> /mnt/disk2/data)
+		add("linkdir")
+		hist["data_directory_is_a_symbolic_link"]++
+	}
 	if o.MergeHeavy && r.Chance(1, 4) {
 		// the same directory spelled with and without a trailing separator across restarts
 		add("pathstyle %d", r.Pick(1, 2, 2))
@@ -478,9 +483,25 @@ func GenBackupCycle(r *Rng, o EngineGenOpts, hist map[string]int) []string {
 		per = 2
 	}
 	groups := 2 + r.Intn(2)
+	key := func(g, i int) string { return fmt.Sprintf("%02x%02x%02x", 0x6b, g, i) }
+	if r.Chance(1, 3) {
+		// the backup directory was a database before, and a finished merge of that database still waits beside it
+		cf := genCfg(r, o, hist)
+		cf.fsize = r.Pick(200, 700)
+		add("dir %s", bk)
+		add("open %s", cf)
+		for i := 0; i < 2*per; i++ {
+			add("put %s @%d:%d", key(9, i), vlen, r.Intn(99999))
+		}
+		for i := 0; i < per; i++ {
+			add("del %s", key(9, i))
+		}
+		add("merge")
+		add("close")
+		hist["backup_into_directory_with_foreign_pending_merge"]++
+	}
 	add("dir db")
 	add("open %s", c)
-	key := func(g, i int) string { return fmt.Sprintf("%02x%02x%02x", 0x6b, g, i) }
 	for g := 0; g < groups; g++ {
 		for i := 0; i < per; i++ {
 			add("put %s @%d:%d", key(g, i), vlen, r.Intn(99999))
